@@ -52,7 +52,8 @@ let frame_serial (f : BinNums.coq_N list) : int =
 
 (* generic script runner over a step function *)
 let run_script (type s) (step : s -> sev -> s) (init : s) (crashed : s -> bool)
-    (seen : int -> s -> BinNums.coq_N list) (shut : int -> s -> bool) (is808 : bool) (toks : string list) : string =
+    (seen : int -> s -> BinNums.coq_N list) (shut : int -> s -> bool)
+    (saved : int -> s -> (BinNums.coq_N list * BinNums.coq_N list) list) (is808 : bool) (toks : string list) : string =
   let st = ref init in
   let opened = Hashtbl.create 8 in
   let order = ref [] in
@@ -60,6 +61,7 @@ let run_script (type s) (step : s -> sev -> s) (init : s) (crashed : s -> bool)
   let g = ref [] in
   let acc = ref "-" in
   let gseen = ref 0 in
+  let verify = ref "" in
   let ev e = st := step !st e in
   let ensure k =
     if not (Hashtbl.mem opened k) then begin
@@ -68,7 +70,7 @@ let run_script (type s) (step : s -> sev -> s) (init : s) (crashed : s -> bool)
     end in
   Stdlib.List.iter (fun tok ->
       let (head, hx) = split_tok tok in
-      let data = if hx = "" then [] else bytes_of_hex hx in
+      let data = if hx = "" || head.[0] = 'V' then [] else bytes_of_hex hx in
       match head.[0] with
       | 'G' ->
         ensure 0; ev (Data (n_of_int 0, n0, data));
@@ -76,7 +78,18 @@ let run_script (type s) (step : s -> sev -> s) (init : s) (crashed : s -> bool)
         let fresh = Stdlib.List.filteri (fun i _ -> i >= !gseen) all in
         g := !g @ [if fresh = [] then "none" else hex_of_bytes fresh];
         gseen := Stdlib.List.length all
-      | 'S' -> ensure 0; ev (Data (n_of_int 0, n0, data))
+      | 'S' | 'C' -> ensure 0; ev (Data (n_of_int 0, n0, data))
+      | 'J' ->
+        let all = seen 0 !st in
+        let fresh = Stdlib.List.filteri (fun i _ -> i >= !gseen) all in
+        g := !g @ [if fresh = [] then "none" else hex_of_bytes fresh];
+        gseen := Stdlib.List.length all
+      | 'V' ->
+        (* the well-behaved upload ends; its final event must hand this file to os.WriteFile *)
+        let (ph, ch) = split_tok hx in
+        let path = bytes_of_hex ph and content = if ch = "" then [] else bytes_of_hex ch in
+        ev (Close (n_of_int 0));
+        verify := if Stdlib.List.exists (fun (p, c) -> p = path && c = content) (saved 0 !st) then "1" else "0"
       | 'A' ->
         ev (Connect (n_of_int 99)); ev (Data (n_of_int 99, n0, data));
         let r = seen 99 !st in
@@ -100,7 +113,7 @@ let run_script (type s) (step : s -> sev -> s) (init : s) (crashed : s -> bool)
           if head.[0] = 'R' then ev (WriteErr (n_of_int k));
           ev (Close (n_of_int k)); Hashtbl.replace status k "gone"
         end
-      | 'P' ->
+      | 'P' | 'Q' ->
         let k = conn_of head in
         ensure k; ev (Data (n_of_int k, n0, data));
         let r = seen k !st in
@@ -120,6 +133,7 @@ let run_script (type s) (step : s -> sev -> s) (init : s) (crashed : s -> bool)
                            (if !g = [] then "-" else String.concat "/" !g));
   Stdlib.List.iter (fun k -> Buffer.add_string buf (Printf.sprintf " k%d=%s" k (Hashtbl.find status k))) !order;
   Buffer.add_string buf (" a=" ^ !acc);
+  if !verify <> "" then Buffer.add_string buf (" v=" ^ !verify);
   Buffer.contents buf
 
 let init () =
@@ -128,11 +142,13 @@ let init () =
       let parse_all = (pa = "1") in
       run_script (fun s e -> step808 parse_all s e) init808 (fun s -> s.v_crashed)
         (fun k s -> Stdlib.List.concat_map (fun o -> o.o_bytes) (fst (seen808 (n_of_int k) s)))
-        (fun k s -> snd (seen808 (n_of_int k) s)) true toks
+        (fun k s -> snd (seen808 (n_of_int k) s)) (fun _ _ -> []) true toks
     | _ -> "bad-args");
   register "containatt" (fun a -> match a with
     | d :: toks ->
       let dn = n_of_int (int_of_string d) in
       run_script (fun s e -> stepatt dn s e) initatt (fun s -> s.a_crashed)
-        (fun k s -> seenatt (n_of_int k) s) (fun _ _ -> false) false toks
+        (fun k s -> bytesatt (n_of_int k) s) (fun _ _ -> false)
+        (fun k s -> Stdlib.List.concat_map (fun o -> match o with ASaved (_, files) -> files | _ -> [])
+            (seenatt (n_of_int k) s)) false toks
     | _ -> "bad-args")
